@@ -36,6 +36,7 @@
 #include <sstream>
 #include <map>
 #include <vector>
+#include <list>
 #include <string>
 #include <unistd.h>
 #include <signal.h>
@@ -256,6 +257,18 @@ static void emitCall(FILE* out, const char* op, const std::string& arg, const ch
 	rec.clear();
 }
 
+static void installSeams(Interpreter& interp, const std::string& engine, RecMonitor* mon, Recorder& rec) {
+	rec.transIndex.clear();
+	indexElements(interp.getImpl()->getDocument()->getDocumentElement(), rec);
+	ActionLanguage al;
+	al.logger = Logger(std::shared_ptr<LoggerImpl>(new RecLogger()));
+	al.microStepper = MicroStep(Factory::getInstance()->createMicroStepper(engine, (MicroStepCallbacks*)interp.getImpl().get()));
+	al.internalQueue = EventQueue(std::shared_ptr<EventQueueImpl>(new RecQueue(true)));
+	al.externalQueue = EventQueue(std::shared_ptr<EventQueueImpl>(new RecQueue(false)));
+	interp.setActionLanguage(al);
+	interp.addMonitor(mon);
+}
+
 static int runCase(const Case& c, FILE* out) {
 	Recorder rec;
 	REC = &rec;
@@ -263,25 +276,23 @@ static int runCase(const Case& c, FILE* out) {
 	const int MAXSTEPS = getenv("VERIF_MAXSTEPS") ? atoi(getenv("VERIF_MAXSTEPS")) : 400;
 
 	try {
-		Interpreter interp = Interpreter::fromXML(c.scxml, "file:///verif/case" + c.id + ".scxml");
+		std::string url = "file:///verif/case" + c.id + ".scxml";
+		Interpreter interp = Interpreter::fromXML(c.scxml, url);
 		if (!interp) { fprintf(out, "{\"k\":\"note\",\"msg\":\"no interpreter\"}\n"); return 3; }
-
-		indexElements(interp.getImpl()->getDocument()->getDocumentElement(), rec);
-
-		ActionLanguage al;
-		al.logger = Logger(std::shared_ptr<LoggerImpl>(new RecLogger()));
-		al.microStepper = MicroStep(Factory::getInstance()->createMicroStepper(c.engine, (MicroStepCallbacks*)interp.getImpl().get()));
-		al.internalQueue = EventQueue(std::shared_ptr<EventQueueImpl>(new RecQueue(true)));
-		al.externalQueue = EventQueue(std::shared_ptr<EventQueueImpl>(new RecQueue(false)));
-		interp.setActionLanguage(al);
-		interp.addMonitor(&mon);
+		installSeams(interp, c.engine, &mon, rec);
+		std::list<Interpreter> retired;   // interpreters replaced by a resumed one are kept alive (no tear-down here)
 
 		size_t wi = 0;
-		bool preload = (c.mode == "preload");
+		std::string mode = c.mode;
+		bool preload = (mode == "preload");
 		int cancelAt = -1;
-		if (c.mode.compare(0, 7, "cancel@") == 0) cancelAt = atoi(c.mode.c_str() + 7);
+		int resumeAt = -1;      // serialize + resume in a fresh interpreter after the k-th stable return
+		if (mode.compare(0, 7, "cancel@") == 0) cancelAt = atoi(mode.c_str() + 7);
+		if (mode.compare(0, 7, "resume@") == 0) resumeAt = atoi(mode.c_str() + 7);
+		if (mode.compare(0, 8, "presume@") == 0) { resumeAt = atoi(mode.c_str() + 8); preload = true; }
 		int steps = 0;
 		int idles = 0;
+		int stables = 0;
 		bool finishedOnce = false;
 		InterpreterState st = USCXML_UNDEF;
 		while (steps < MAXSTEPS) {
@@ -307,6 +318,30 @@ static int runCase(const Case& c, FILE* out) {
 					emitCall(out, "receive", jtokens(c.words[wi]), "-", rec, "[]");
 				}
 			}
+			if ((st == USCXML_IDLE || st == USCXML_MACROSTEPPED) && resumeAt >= 0 && ++stables == resumeAt) {
+				// C14: snapshot at a macrostep boundary, continue in a FRESH interpreter for the same document
+				std::string state;
+				const char* outcome = "ok";
+				try {
+					state = interp.serialize();
+					Interpreter fresh = Interpreter::fromXML(c.scxml, url);
+					installSeams(fresh, c.engine, &mon, rec);
+					rec.inReceive = true;    // events re-enqueued by deserialize are not sends
+					fresh.deserialize(state);
+					rec.inReceive = false;
+					retired.push_back(interp);
+					interp = fresh;
+				} catch (Event e) {
+					rec.inReceive = false;
+					outcome = "exception";
+				} catch (...) {
+					rec.inReceive = false;
+					outcome = "exception";
+				}
+				rec.clear();
+				emitCall(out, "resume", "[]", outcome, rec, cfgJson(interp));
+				resumeAt = -1;
+			}
 			if (st == USCXML_IDLE) {
 				if (wi < c.words.size()) {
 					rec.inReceive = true;
@@ -325,7 +360,6 @@ static int runCase(const Case& c, FILE* out) {
 		fprintf(out, "{\"k\":\"end\",\"steps\":%d,\"dm\":[", steps);
 		bool first = true;
 		for (auto& v : c.vars) {
-			std::string val = "\"?\"";
 			long num = 0;
 			bool def = false;
 			try {
